@@ -59,7 +59,7 @@ func scenRefPeer(s *spec.RunSpec, res *spec.RunResult, finish func(*World)) {
 		}
 	}
 	rp.judge()
-	w.Res.NonTrivial = w.checks > 0 && rp.segsSent > 0
+	w.Res.NonTrivial = w.checks.Load() > 0 && rp.segsSent > 0
 	res.Completed = true
 	finish(w)
 }
@@ -72,8 +72,8 @@ type refPeer struct {
 
 	segsSent   int
 	segsRecv   int
-	handshake  bool   // open response (client mode) / open request (server mode) seen
-	echoOK     bool   // all application bytes came back intact
+	handshake  bool // open response (client mode) / open request (server mode) seen
+	echoOK     bool // all application bytes came back intact
 	echoGot    int64
 	echoWant   int64
 	failure    string // first thing that went wrong from the reference peer's point of view
